@@ -331,8 +331,11 @@ class Struct(metaclass=MetaStruct):
 
     def _update(self, value):
         # check if direct copy is possible
+        # (only for structs of static size: in a dynamic struct the fields
+        # of `value` may be laid out differently within the same total size)
         if (
             isinstance(value, self.__class__)
+            and self.__class__._size is not None
             and value._size == self._size
             and not self._has_refs
         ):
